@@ -151,6 +151,8 @@ class Ctx:
                 c["fields"][f] = s if (s == "py" or s.startswith("dotted:")) else parse_sort(s)
             if "callable_of" in cd:
                 c["callable_of"] = cd["callable_of"]
+            if cd.get("exact"):
+                c["exact"] = True     # objects declared of this class really are instances of it (isinstance is decided statically)
             c["alias"].update(cd.get("alias", {}))
             c["invariant"].update(cd.get("invariant", {}))
             c["wf"].update(cd.get("wf", {}))
@@ -227,6 +229,7 @@ class State:
         self.exc = None         # name of the exception class being handled (for bare raise)
         self.guards = []        # local short-circuit guards (for safety obligations in pure subexpressions)
         self.fresh = []         # objects allocated on this path (pairwise distinct)
+        self.alloc = z3.Const("ALLOC!0", z3.ArraySort(Ref, z3.BoolSort()))   # allocation ghost: which references exist already
 
     def new_object(self, z):
         for o in self.fresh:
@@ -243,6 +246,7 @@ class State:
         s.exc = self.exc
         s.guards = list(self.guards)
         s.fresh = list(self.fresh)
+        s.alloc = self.alloc
         return s
 
     def snapshot(self):
@@ -463,6 +467,11 @@ class Task:
                 self_v = vref(z3.Const("self", Ref), self.receiver)
                 st.assume(self_v.z != null)
                 st.locals[n] = self_v
+                if c.ctor:      # a new object has none of its optional attributes yet
+                    for cn in self.ctx.mro(self.receiver):
+                        for fname, fs in self.ctx.classes.get(cn, {}).get("fields", {}).items():
+                            if fname.startswith("?"):
+                                st.assume(z3.Not(self.read_field(st, self_v, fname).z))
                 continue
             s = c.params.get(n)
             if s is None:
@@ -695,6 +704,10 @@ class Task:
             for s2, obj, e in self.ev(t.value, st):
                 if e is not None:
                     res.append(Outcome(Outcome.RAISE, s2, exc=e))
+                    continue
+                if isinstance(obj, VOpaque):
+                    self.dropped.add("attribute stores on opaque python objects (e.g. class attributes set on type(self))")
+                    res.append(s2)
                     continue
                 if not (isinstance(obj, V) and isinstance(obj.sort, RefSort)):
                     raise Unsupported(f"attribute store on {obj} at line {t.lineno}")
@@ -935,8 +948,10 @@ class Task:
                     tg = [i.optional_vars for i in n.items]
                 for t in tg:
                     for x in ast.walk(t) if t is not None else []:
-                        if isinstance(x, ast.Name):
+                        if isinstance(x, ast.Name) and isinstance(x.ctx, ast.Store):
                             assigned.add(x.id)
+                        elif isinstance(x, ast.Subscript) and isinstance(x.ctx, ast.Store) and isinstance(x.value, ast.Name):
+                            assigned.add(x.value.id)          # d[k] = v mutates the local container d
                         elif isinstance(x, ast.Attribute) and isinstance(x.ctx, ast.Store):
                             attrs.add(mangle(x.attr, self.defcls))
             if isinstance(n, ast.Call):
@@ -1011,6 +1026,11 @@ class Task:
         if called is not None:
             for cname in called:
                 self.havoc_contract_frame(st, self.ctx.contracts[cname])
+            if any(self.ctx.contracts[cn].ctor for cn in called):
+                na = z3.Const(fresh_name("ALLOC"), z3.ArraySort(Ref, z3.BoolSort()))
+                xq = z3.Const(fresh_name("aq"), Ref)
+                st.assume(z3.ForAll([xq], z3.Implies(z3.Select(st.alloc, xq), z3.Select(na, xq))))
+                st.alloc = na
         else:
             # fallback: callee frames over-approximated by short name
             for cname, c in self.ctx.contracts.items():
@@ -1485,6 +1505,8 @@ class Task:
             t_last, val = vals[-1]
             for t, v in reversed(vals[:-1]):
                 decides = z3.Not(t) if is_and else t
+                if (not is_and) and isinstance(v, V) and isinstance(v.sort, OptSort) and isinstance(val, V) and val.sort == v.sort.inner:
+                    v = V(v.sort.inner, v.comps[1:])      # a truthy Optional is not None
                 if all(isinstance(x, V) and x.sort == BOOL for x in (v, val)):
                     val = vbool(z3.If(decides, v.z, val.z))
                 else:
@@ -1564,7 +1586,11 @@ class Task:
 
     def ex_Dict(self, node, st):
         if node.keys:
-            raise Unsupported("non-empty dict literal")
+            self.dropped.add("non-empty dict literals (kept as opaque python values; only passed around)")
+            res = []
+            for s2, vals, e in self.ev_many([v for v in node.values], st):
+                res.append((s2, VOpaque(f"dict literal at line {node.lineno}") if e is None else None, e))
+            return res
         return [(st, VEmptyDict(), None)]
 
     def ex_JoinedStr(self, node, st):
@@ -1688,6 +1714,20 @@ class Task:
                 else:
                     raise Unsupported(f".{f.attr} on {a} (line {node.lineno})")
             return res
+        if isinstance(f, ast.Attribute) and f.attr == "join" and len(node.args) == 1 and isinstance(f.value, ast.Constant) and isinstance(f.value.value, str):
+            res = []
+            for s2, v, e in self.ev(node.args[0], st):
+                if e is not None:
+                    res.append((s2, None, e)); continue
+                if isinstance(v, V) and isinstance(v.sort, SeqSort) and v.sort.elem == STR:
+                    res.append((s2, vstr(STR_JOIN(z3.StringVal(f.value.value), v.comps[0], v.comps[1])), None))
+                else:
+                    raise Unsupported(f"str.join over {v} (line {node.lineno})")
+            return res
+        if isinstance(f, ast.Attribute) and f.attr == "update" and len(node.args) == 1 and not node.keywords and not (isinstance(f.value, ast.Attribute) and f.value.attr == "__dict__"):
+            r = self.try_dict_update(node, st)
+            if r is not None:
+                return r
         if isinstance(f, ast.Attribute) and f.attr == "get" and 1 <= len(node.args) <= 2 and not node.keywords:
             r = self.try_dict_get(node, st)
             if r is not None:
@@ -1721,6 +1761,40 @@ class Task:
                 pos = vals[:len(node.args)]
                 kw = {k.arg: v for k, v in zip(node.keywords, vals[len(node.args):])}
                 res += self.call_value(s3, fv, pos, kw, node)
+        return res
+
+    def try_dict_update(self, node, st):
+        """d.update(other) for map values: the result is a fresh map constrained by the (assumed, builtin) semantics of dict.update:
+        union of the domains, other's value wins, keys already present keep their position, new keys come after them"""
+        f = node.func
+        res = []
+        for s2, vals, e in self.ev_many([f.value, node.args[0]], st):
+            if e is not None:
+                res.append((s2, None, e)); continue
+            m, o = vals
+            if not (isinstance(m, V) and isinstance(m.sort, MapSort) and isinstance(o, V) and isinstance(o.sort, MapSort) and m.sort == o.sort):
+                return None
+            new = m.sort.fresh("upd")
+            d1, v1, k1 = map_parts(m); d2, v2, k2 = map_parts(o); d3, v3, k3 = map_parts(new)
+            k = z3.Const(fresh_name("updk"), m.sort.key.comps()[0])
+            i, j = z3.Int(fresh_name("updi")), z3.Int(fresh_name("updj"))
+            s2.assume(z3.ForAll([k], z3.Select(d3, k) == z3.Or(z3.Select(d1, k), z3.Select(d2, k))))
+            for a1, a2, a3 in zip(v1, v2, v3):
+                s2.assume(z3.ForAll([k], z3.Select(a3, k) == z3.If(z3.Select(d2, k), z3.Select(a2, k), z3.Select(a1, k))))
+            s2.assume(z3.And(k3.comps[0] >= k1.comps[0], k3.comps[0] <= k1.comps[0] + k2.comps[0]))
+            s2.assume(z3.ForAll([i], z3.Implies(z3.And(0 <= i, i < k1.comps[0]), z3.Select(k3.comps[1], i) == z3.Select(k1.comps[1], i))))
+            idx2 = z3.Function(fresh_name("upd_idx"), m.sort.key.comps()[0], z3.IntSort())
+            s2.assume(z3.ForAll([i], z3.Implies(z3.And(0 <= i, i < k2.comps[0]), idx2(z3.Select(k2.comps[1], i)) == i), patterns=[z3.Select(k2.comps[1], i)]))
+            s2.assume(z3.ForAll([i, j], z3.Implies(z3.And(k1.comps[0] <= i, i < j, j < k3.comps[0]), idx2(z3.Select(k3.comps[1], i)) < idx2(z3.Select(k3.comps[1], j)))))
+            s2.assume(z3.Implies(k1.comps[0] == 0, z3.And(k3.comps[0] == k2.comps[0],
+                                                             z3.ForAll([i], z3.Implies(z3.And(0 <= i, i < k2.comps[0]), z3.Select(k3.comps[1], i) == z3.Select(k2.comps[1], i))))))
+            # the new map is again a proper dict
+            s2.assume(z3.ForAll([i, j], z3.Implies(z3.And(0 <= i, i < j, j < k3.comps[0]), z3.Select(k3.comps[1], i) != z3.Select(k3.comps[1], j))))
+            s2.assume(z3.ForAll([i], z3.Implies(z3.And(0 <= i, i < k3.comps[0]), z3.Select(d3, z3.Select(k3.comps[1], i))), patterns=[z3.Select(k3.comps[1], i)]))
+            s2.assume(z3.ForAll([k], z3.Implies(z3.Select(d3, k), z3.Exists([i], z3.And(0 <= i, i < k3.comps[0], z3.Select(k3.comps[1], i) == k))), patterns=[z3.Select(d3, k)]))
+            self.dropped.add("dict.update(other) body: replaced by the assumed builtin semantics (union, other wins, existing keys keep their position)")
+            for s3 in self.assign_to(_as_store(f.value), new, s2):
+                res.append((s3, VNONE, None) if not isinstance(s3, Outcome) else (s3.st, None, s3.exc))
         return res
 
     def try_dict_get(self, node, st):
@@ -1816,6 +1890,8 @@ class Task:
         st.assume(obj.z != null)
         st.assume(FRESH(obj.z))
         st.new_object(obj.z)
+        st.assume(z3.Not(z3.Select(st.alloc, obj.z)))      # a constructor returns an object that did not exist before
+        st.alloc = z3.Store(st.alloc, obj.z, z3.BoolVal(True))
         res = []
         for s2, v, e in self.call_contract(st, c, obj, pos, kw, node):
             res.append((s2, obj if e is None else None, e))
@@ -1901,7 +1977,11 @@ class Task:
             e2 = dict(env)
             r = None
             if not raised:
-                if c.returns and c.returns != "py":
+                if c.pure_result:
+                    r = self.spec(s, c.pure_result, e2, pre, self_cls)
+                    if c.returns and c.returns != "py" and isinstance(r, V):
+                        r = coerce(r, parse_sort(c.returns))
+                elif c.returns and c.returns != "py":
                     r = parse_sort(c.returns).fresh(f"ret.{c.name.split('.')[-1]}")
                     if isinstance(r.sort, RefSort) and False:
                         pass
@@ -1956,6 +2036,8 @@ class Task:
                 res.append((s2, vint(vals[0].comps[0]), None))
             elif name == "len" and isinstance(vals[0], V) and isinstance(vals[0].sort, MapSort):
                 res.append((s2, vint(map_parts(vals[0])[2].comps[0]), None))
+            elif name == "len" and isinstance(vals[0], VPyTuple):
+                res.append((s2, vint(len(vals[0].items)), None))
             elif name == "len" and isinstance(vals[0], V) and vals[0].sort == STR:
                 res.append((s2, vint(z3.Length(vals[0].z)), None))
             elif name == "float" and is_num(vals[0]):
@@ -1969,6 +2051,8 @@ class Task:
                 res.append((s2, vals[0], None))
             elif name == "bool":
                 res.append((s2, vbool(truth(vals[0])), None))
+            elif name == "type" and len(vals) == 1:
+                res.append((s2, VOpaque(f"type({vals[0]})"), None))
             elif name == "abs" and is_num(vals[0]):
                 res.append((s2, V(vals[0].sort, [z3.If(vals[0].z < 0, -vals[0].z, vals[0].z)]), None))
             elif name == "callable" and isinstance(vals[0], V) and isinstance(vals[0].sort, (SeqSort, MapSort)):
@@ -2037,7 +2121,8 @@ class Task:
                     res.append((s2, vbool(z3.Not(obj.comps[0])), None)); continue
             if isinstance(obj, V) and obj.sort == STR and tname not in ("str",):
                 res.append((s2, vbool(False), None)); continue
-            if isinstance(obj, V) and isinstance(obj.sort, RefSort) and tname.split(".")[-1] in [c.split(".")[-1] for c in self.ctx.mro(obj.sort.cls)]:
+            if isinstance(obj, V) and isinstance(obj.sort, RefSort) and self.ctx.classes.get(obj.sort.cls, {}).get("exact") \
+                    and tname.split(".")[-1] in [c.split(".")[-1] for c in self.ctx.mro(obj.sort.cls)]:
                 # the sidecar declares this object to be of that class
                 res.append((s2, vbool(obj.z != null), None)); continue
             if isinstance(obj, V) and isinstance(obj.sort, RefSort):
@@ -2057,6 +2142,7 @@ class Task:
         return res
 
 
+STR_JOIN = z3.Function("str_join", z3.StringSort(), z3.IntSort(), z3.ArraySort(z3.IntSort(), z3.StringSort()), z3.StringSort())
 FRESH = z3.Function("fresh_object", Ref, z3.BoolSort())
 CALLABLE = z3.Function("is_callable", Ref, z3.BoolSort())
 ISINSTANCE = z3.Function("isinstance", Ref, Ref, z3.BoolSort())
@@ -2275,6 +2361,10 @@ class SpecEval:
                 return self.ev(n.args[0])
             finally:
                 self.in_old = prev
+        if name == "allocated":
+            return vbool(z3.Select(self.st.alloc, self.ev(n.args[0]).z))
+        if name == "entry":
+            return self.t.old_locals[n.args[0].id]
         if name == "at_loop_entry":
             snap = self.env.get("__loop_entry__")
             if snap is None:
@@ -2340,6 +2430,13 @@ class SpecEval:
         if name == "has_attr":
             return self.t.read_field(self.st, self.ev(n.args[0]), "?" + n.args[1].value,
                                      self.old[0] if (self.in_old and self.old) else None)
+        if name == "join":
+            sep, sq = self.ev(n.args[0]), self.ev(n.args[1])
+            return vstr(STR_JOIN(sep.z, sq.comps[0], sq.comps[1]))
+        if name == "values_at":      # values_at(map, i): value of the i-th key
+            m, i = self.ev(n.args[0]), self.ev(n.args[1])
+            dom, vals, keys = map_parts(m)
+            return map_get(m, seq_get(keys, i.z))
         if name == "wf_map":
             m = self.ev(n.args[0])
             dom, vals, keys = map_parts(m)
